@@ -395,7 +395,23 @@ func checkCmd(args []string) int {
 			continue
 		}
 		rp := writeMissingReplay(prop, name, unsupported, w.loadErrs)
-		fmt.Printf("VIOLATION property=%s replay=%s obligation=%s status=not-generated no-failing-input-found\n", prop, rp, name)
+		suffix := " no-failing-input-found"
+		// the obligation is gone, but the property can still be probed on the real code of that function's package
+		fnKey := name
+		for _, sep := range []string{".post[", ".law", ".lemma."} {
+			if i := strings.Index(fnKey, sep); i > 0 {
+				fnKey = fnKey[:i]
+			}
+		}
+		if fn := w.funcs[fnKey]; fn != nil {
+			if f := propFalsifiers[prop]; f != nil {
+				if cx := f(w, fn, vcResult{vc: VC{Name: name, Fn: fnKey}}); cx != nil && cx.Confirmed {
+					appendCounterexample(rp, cx)
+					suffix = ""
+				}
+			}
+		}
+		fmt.Printf("VIOLATION property=%s replay=%s obligation=%s status=not-generated%s\n", prop, rp, name, suffix)
 		violations = append(violations, name)
 		exit = 1
 	}
@@ -504,6 +520,20 @@ func condForBaseline(results []vcResult, r vcResult) bool {
 type replayResult struct {
 	Path      string
 	Confirmed bool
+}
+
+func appendCounterexample(path string, cx *Counterexample) {
+	b, err := os.ReadFile(path)
+	if err != nil {
+		return
+	}
+	var m map[string]any
+	if json.Unmarshal(b, &m) != nil {
+		return
+	}
+	m["counterexample"] = cx
+	nb, _ := json.MarshalIndent(m, "", " ")
+	os.WriteFile(path, nb, 0o644)
 }
 
 func writeMissingReplay(prop, name string, unsupported, loadErrs []string) string {
